@@ -78,6 +78,15 @@ func inspect(c *Config, m *diam.Message) {
 		_, _ = m.FindAVPs(k, 0)
 		_, _ = m.FindAVPsWithPath([]interface{}{k}, 0)
 		_, _ = m.FindAVPsWithPath([]interface{}{uint32(260), k}, 0)
+		// paths that lead through whatever the message itself carries at top level (an AVP with the
+		// code of a Grouped AVP need not have decoded as a group: codes are per-vendor name spaces)
+		for i, a := range m.AVP {
+			if i >= 4 {
+				break
+			}
+			_, _ = m.FindAVPsWithPath([]interface{}{a.Code, k}, 0)
+			_, _ = m.FindAVPsWithPath([]interface{}{a.Code, k}, a.VendorID)
+		}
 	}
 	for _, a := range m.AVP {
 		_ = a.String()
@@ -365,6 +374,16 @@ func c03Seeds(c *Config) (seeds [][]byte, small [][]byte) {
 		seeds = append(seeds, enc(hd[0], []atoms.N{c.groupNode(0, []atoms.N{core[0], c.groupNode(1, []atoms.N{core[1], c.groupNode(2, nil)}), core[2]}), core[3]}))
 		seeds = append(seeds, enc(hd[1], []atoms.N{c.groupNode(0, nil)}))
 		small = append(small, seeds[len(seeds)-2])
+	}
+	// the code of a Grouped AVP under a vendor id the dictionary does not know: decodes as opaque data
+	inner := refcodec.EncodeAVP(refcodec.Node{Code: c.A.Undef[0], Payload: []byte{1, 2, 3, 4}})
+	for _, g := range c.A.Groups {
+		seeds = append(seeds, refcodec.EncodeMessage(hd[0], []refcodec.Node{{Code: g.Code, Flags: 0xC0, Vendor: 4242, Payload: inner}, atoms.RefNodes(core[:1])[0]}))
+	}
+	for _, code := range []uint32{260, 279, 284} {
+		if c.A.D.M.FindCode(c.A.App, code, 0) != nil {
+			seeds = append(seeds, refcodec.EncodeMessage(hd[0], []refcodec.Node{{Code: code, Flags: 0xC0, Vendor: 4242, Payload: inner}, atoms.RefNodes(core[:1])[0]}))
+		}
 	}
 	seeds = append(seeds, enc(hd[0], core), enc(hd[1], nil))
 	small = append(small, enc(hd[0], core[:3]), enc(hd[0], []atoms.N{firstOfKind[0]}))
